@@ -80,19 +80,22 @@ Proof.
   apply oe_upd_node; [exact H|apply oe_fun_set_exp].
 Qed.
 
-Lemma oe_block_level : forall N cfg maa opt sz cur d d' next tape, obs_eq d d' ->
-  rel4 (block_level N cfg maa opt sz d cur next tape) (block_level N cfg maa opt sz d' cur next tape).
+Definition rel5 {B C D E : Type} (a b : sd * B * C * D * E) : Prop := rel4 (fst a) (fst b) /\ snd a = snd b.
+
+Lemma oe_block_level : forall N cfg maa opt sz cur d d' next tape vis, obs_eq d d' ->
+  rel5 (block_level N cfg maa opt sz d cur next tape vis) (block_level N cfg maa opt sz d' cur next tape vis).
 Proof.
-  intros N cfg maa opt sz cur. induction cur as [|x cur IH]; intros d d' next tape H.
-  { simpl. rel_done H. }
+  intros N cfg maa opt sz cur. induction cur as [|x cur IH]; intros d d' next tape vis H.
+  { simpl. unfold rel5. rel_done H. }
   cbn [block_level].
-  rewrite <- (oe_exp _ _ H x), <- (oe_over_limit _ _ H), <- (oe_space _ _ H x), <- (oe_size _ _ H).
-  destruct (n_exp (get d x)); [apply IH; exact H|].
-  destruct (over_limit sz d); [rel_done H|].
+  rewrite <- (oe_exp _ _ H x), <- (oe_over_limit _ _ H), <- (oe_space _ _ H x), <- (oe_size _ _ H),
+          <- (oe_successors _ _ H x).
+  destruct (n_exp (get d x)); [destruct (mem_nat x vis); apply IH; exact H|].
   cbv zeta.
+  destruct (over_limit sz d); [unfold rel5; rel_done H|].
   destruct (negb match sources_in_b N (n_space (get d x)) with [] => true | _ :: _ => false end && opt).
-  - destruct (Nat.ltb (max_motifs cfg) _); [rel_done H|].
-    destruct (match sz with Some k => Nat.ltb k _ | None => false end); [rel_done H|].
+  - destruct (Nat.ltb (max_motifs cfg) _); [unfold rel5; rel_done H|].
+    destruct (match sz with Some k => Nat.ltb k _ | None => false end); [unfold rel5; rel_done H|].
     pose proof (oe_ensure_children N
                   (map (merge (n_space (get d x)))
                        (source_valuations (nvars N) (sources_in_b N (n_space (get d x)))))
@@ -104,7 +107,7 @@ Proof.
     destruct (node_successors N cfg d x) as [[d1 r] succ],
              (node_successors N cfg d' x) as [[d1' r'] succ'].
     destruct H1 as [[H1 Hr] Hs]. simpl in H1, Hr, Hs. subst r' succ'.
-    destruct r; try (rel_done H1).
+    destruct r; try (unfold rel5; rel_done H1).
     destruct (sort_nat succ) as [|s [|s2 rest]].
     + apply IH. exact H1.
     + destruct (negb maa); [apply IH; exact H1|].
@@ -117,16 +120,16 @@ Proof.
       destruct clean as [ns|]; apply IH; [apply oe_set_empty_seeds|]; exact H1.
 Qed.
 
-Lemma oe_block_loop : forall N cfg maa opt sz fuel d d' cur tape, obs_eq d d' ->
-  rel2 (block_loop fuel N cfg maa opt sz d cur tape) (block_loop fuel N cfg maa opt sz d' cur tape).
+Lemma oe_block_loop : forall N cfg maa opt sz fuel d d' cur tape vis, obs_eq d d' ->
+  rel2 (block_loop fuel N cfg maa opt sz d cur tape vis) (block_loop fuel N cfg maa opt sz d' cur tape vis).
 Proof.
-  intros N cfg maa opt sz fuel. induction fuel as [|f IH]; intros d d' cur tape H.
+  intros N cfg maa opt sz fuel. induction fuel as [|f IH]; intros d d' cur tape vis H.
   { simpl. rel_done H. }
   cbn [block_loop]. destruct cur as [|c cur']; [rel_done H|].
-  pose proof (oe_block_level N cfg maa opt sz (sort_nat (c :: cur')) d d' [] tape H) as H1.
-  destruct (block_level N cfg maa opt sz d (sort_nat (c :: cur')) [] tape) as [[[d1 r] next] tape1],
-           (block_level N cfg maa opt sz d' (sort_nat (c :: cur')) [] tape) as [[[d1' r'] next'] tape1'].
-  destruct H1 as [[[H1 Hr] Hn] Ht]. simpl in H1, Hr, Hn, Ht. subst r' next' tape1'.
+  pose proof (oe_block_level N cfg maa opt sz (sort_nat (c :: cur')) d d' [] tape vis H) as H1.
+  destruct (block_level N cfg maa opt sz d (sort_nat (c :: cur')) [] tape vis) as [[[[d1 r] next] tape1] vis1],
+           (block_level N cfg maa opt sz d' (sort_nat (c :: cur')) [] tape vis) as [[[[d1' r'] next'] tape1'] vis1'].
+  destruct H1 as [[[[H1 Hr] Hn] Ht] Hv]. simpl in H1, Hr, Hn, Ht, Hv. subst r' next' tape1' vis1'.
   destruct r; try (rel_done H1). apply IH. exact H1.
 Qed.
 
